@@ -1001,10 +1001,11 @@ fn run_case_in_child(path: &str, timeout_s: u64) -> (String, String, String) {
                 return (format!("abort:{how}"), String::new(), format!("the process died ({how}) while executing the case"));
             }
             Ok(None) => {
-                if t0.elapsed().as_secs() > timeout_s {
+                let wall = t0.elapsed().as_secs();
+                if wall > timeout_s && (wall > timeout_s * WALL_FACTOR || cpu_seconds(child.id()).map(|c| c > timeout_s as f64).unwrap_or(true)) {
                     let _ = child.kill();
                     let _ = child.wait();
-                    return ("hang-backstop".into(), String::new(), format!("no result within {timeout_s} s of wall-clock time"));
+                    return ("hang-backstop".into(), String::new(), format!("no result within {timeout_s} s of CPU time"));
                 }
                 std::thread::sleep(std::time::Duration::from_millis(5));
             }
@@ -1054,7 +1055,7 @@ fn minimise(c0: &Case, sig: &str, scratch: &str) -> (Case, Value) {
     let mut c = c0.clone();
     if sig.starts_with("hang-backstop") {
         // every probe would cost the wall-clock backstop: report the case as generated
-        return (c, json!({"probes": 0, "note": "not minimised: each probe of a stalled run costs the wall-clock backstop"}));
+        return (c, json!({"probes": 0, "note": "not minimised: each probe of a stalled run costs the backstop"}));
     }
     // 1. transport: no control events, one chunk
     let d = delivered(&c.events);
@@ -1135,7 +1136,25 @@ struct Slot {
     hi: u64,
     last_idx: u64,
     since: std::time::Instant,
+    /// CPU seconds the child had used when it announced the run it is on
+    cpu_at_change: f64,
 }
+
+/// CPU time (user + system, all threads) a process has used, from /proc/<pid>/stat. The
+/// backstop counts this, not wall-clock time, so that a loaded machine cannot make a healthy
+/// run look stalled; wall-clock time only bounds it from far above (a run that neither
+/// finishes nor burns CPU).
+fn cpu_seconds(pid: u32) -> Option<f64> {
+    let s = std::fs::read_to_string(format!("/proc/{pid}/stat")).ok()?;
+    let rest = &s[s.rfind(')')? + 1..];
+    let f: Vec<&str> = rest.split_whitespace().collect();
+    // after the command: state is field 0, utime field 11, stime field 12
+    let ut: f64 = f.get(11)?.parse().ok()?;
+    let st: f64 = f.get(12)?.parse().ok()?;
+    Some((ut + st) / 100.0)
+}
+
+const WALL_FACTOR: u64 = 10;
 
 fn on_case_thread<F: FnOnce() -> i32 + Send + 'static>(f: F) -> i32 {
     std::thread::Builder::new()
@@ -1183,7 +1202,7 @@ pub fn main(args: &Args) -> i32 {
     };
     // unoptimised library code is an order of magnitude slower on the large documents
     let backstop = match (tier, debug_stage()) {
-        (Tier::Quick, false) => 20u64,
+        (Tier::Quick, false) => 40u64,
         (Tier::Thorough, false) => 120,
         (_, true) => 240,
     };
@@ -1223,7 +1242,7 @@ pub fn main(args: &Args) -> i32 {
                         .stderr(std::process::Stdio::null())
                         .spawn()
                         .unwrap_or_else(|e| harness_error(&format!("spawn child: {e}")));
-                    slots[w] = Some(Slot { child, out, lo, hi, last_idx: 0, since: std::time::Instant::now() });
+                    slots[w] = Some(Slot { child, out, lo, hi, last_idx: 0, since: std::time::Instant::now(), cpu_at_change: 0.0 });
                 }
             }
             let mut finished = None;
@@ -1233,11 +1252,15 @@ pub fn main(args: &Args) -> i32 {
                 if inflight != s.last_idx {
                     s.last_idx = inflight;
                     s.since = std::time::Instant::now();
+                    s.cpu_at_change = cpu_seconds(s.child.id()).unwrap_or(0.0);
                 }
                 match s.child.try_wait() {
                     Ok(Some(st)) => finished = Some((st, false)),
                     Ok(None) => {
-                        if s.since.elapsed().as_secs() > backstop && s.last_idx > 0 {
+                        let wall = s.since.elapsed().as_secs();
+                        let stalled = wall > backstop
+                            && (wall > backstop * WALL_FACTOR || cpu_seconds(s.child.id()).map(|c| c - s.cpu_at_change > backstop as f64).unwrap_or(true));
+                        if stalled && s.last_idx > 0 {
                             let _ = s.child.kill();
                             let st = s.child.wait().unwrap();
                             finished = Some((st, true));
@@ -1359,7 +1382,7 @@ pub fn main(args: &Args) -> i32 {
         if probe_sig == "hang-backstop" {
             hang_reports += 1;
             if hang_reports > 2 {
-                println!("violation: signature={sig} runs={cnt} first_run={idx} :: (further stalled runs are not replayed one by one: each costs the wall-clock backstop)");
+                println!("violation: signature={sig} runs={cnt} first_run={idx} :: (further stalled runs are not replayed one by one: each costs the backstop)");
                 continue;
             }
         }
@@ -1460,7 +1483,7 @@ pub fn main(args: &Args) -> i32 {
         "assumptions": [
             "claimed for the fault-reachable part of the property only (documents that were well-formed when written, then damaged at rest or in flight, plus garbage sectors); adversarially constructed inputs are outside a fault model (DESIGN.md §4.4)",
             "serialisation is exercised only while the greatest generated line is below 100000 (the property's own bound)",
-            "the wall-clock backstop is the only place real time can influence a verdict; a hit is re-run alone before it is reported",
+            "the backstop (CPU seconds used by the worker on one run; wall-clock time only as a tenfold outer bound) is the only place real time can influence a verdict; a hit is re-run alone before it is reported",
             "sampled, not exhaustive"
         ],
     });
